@@ -29,11 +29,18 @@ REQUIRED_THEOREMS = ['map_supported_any_case', 'map_supported_any_case_ascii', '
                      'gen_no_models_for_ko_tr_enstar', 'gen_types_owned_table', 'gen_english_registered_table',
                      'gen_regs_supported_table', 'gen_unique_tag', 'cache_key_separation', 'same_key_same_object',
                      'foreign_type_served_from_shared_cache', 'register_duplicate_rejected',
-                     'options_out_of_range_rejected', 'gen_option_ranges', 'wrapper_cjk_routes_chinese']
+                     'options_out_of_range_rejected', 'gen_option_ranges', 'wrapper_cjk_routes_chinese',
+                     'target_default_equiv', 'empty_culture_never_target', 'getter_case_insensitive',
+                     'cjk_shortcut_ignores_target_culture']
 RULE = ('unit: map_to_nearest_language on every supported code x every upper/lower pattern, every 1-3 letter a-z '
         'string, 1-2 letter prefixes with a region, regional variants, unknown languages, None/empty/whitespace, '
         'case-special code points (Kelvin sign, U+0130, full-width), seeded strings; register_model sequences; '
-        'constructor options -3..70 per recogniser. pipeline: ONE seeded history per run from the empty cache '
+        'constructor options -3..70 per recogniser. pipeline: ONE history per run from the empty cache: reference '
+        'models of all registered (kind, type, culture) straight from the factory; family (a) recogniser objects of all '
+        'five kinds built with ~85 target cultures of every spelling class (supported code in 5 letter-case patterns, '
+        'regional variants, several-culture languages, unknown, empty, None) x request culture None / empty / the '
+        'target itself / fr-CA x every get_*_model getter x fallback on/off; family (b) every getter x every '
+        'supported code x all 16 upper/lower patterns x fallback; then the seeded part '
         '(quick >= 600 ops, thorough >= 2500): constructions (valid/invalid options, lazy flag, target None / '
         'Culture object / equal copy), get_model, every get_*_model wrapper, factory-level get_model / try_get_model, '
         'initialize_models, over all model types of all five recognisers x culture strings x options x fallback '
@@ -377,6 +384,55 @@ def wrapper_table(st):
     return out
 
 
+def target_spellings(supported):
+    """target cultures of every spelling class"""
+    out = []
+    for code in supported:
+        lang, _, region = code.partition('-')
+        out += [code, code.upper(), code.title(), lang.upper() + '-' + region, lang + '-' + region.upper()]
+    out += ['pt-pt', 'PT-PT', 'it-ch', 'nl-be', 'NL-be', 'de-at', 'de-CH', 'fr-ca', 'FR-be', 'zh-tw', 'zh-HK', 'ja-x', 'JA',
+            'ko-xx', 'tr-cy', 'pt', 'fr',                       # regional variants of single-culture languages
+            'en-gb', 'EN-au', 'es-ar', 'en', 'es',              # languages with several supported cultures
+            'xx-yy', 'ru-ru', 'q', 'fra-fr', 'f', 'd', 'z-x',   # unknown
+            '', ' ', '-', None]                                 # empty
+    seen, res = set(), []
+    for t in out:
+        if t not in seen:
+            seen.add(t)
+            res.append(t)
+    return res
+
+
+def spelling_class(s, supported):
+    if s is None:
+        return 'none'
+    if not s.strip(' -'):
+        return 'empty'
+    if s in supported:
+        return 'canonical'
+    if s.lower() in supported:
+        return 'letter-case'
+    if factory.spec_culture(s, supported) is not None:
+        return 'regional-variant'
+    return 'other'
+
+
+def narrow_signature(meta, supported):
+    """signature of a routing violation: which part of the request space it is in"""
+    c = meta['culture']
+    getter = meta.get('wrapper') or 'get_model'
+    if c is None:
+        return 'target-culture-default:%s-target' % spelling_class(meta['inst'][1], supported)
+    if c == '':
+        return 'empty-request-culture'
+    cls = spelling_class(c, supported)
+    if cls == 'letter-case':
+        return 'letter-case-routing:%s' % getter
+    if cls == 'regional-variant':
+        return 'regional-variant-routing:%s' % getter
+    return 'wrong-model-served'
+
+
 def asked_string(meta):
     c = meta['culture']
     if c is None:
@@ -406,6 +462,48 @@ def pipeline(ctx, st, repaired):
                  lambda w=w, fb=fb: number[0].get_number_model(w, fb),
                  {'kind': 'wrapper', 'wrapper': 'get_number_model', 'inst': number[1], 'type': 'NumberModel',
                   'culture': w, 'fb': fb, 'cjk': False})
+    # ---- reference models: every registered (kind, type, culture) obtained straight from the factory with the
+    # canonical code (try_get_model: no culture mapping, no getter, no fallback) -- identity reference of the oracles
+    ref = {}
+    refinst = {}
+    for kind in range(len(st['real'])):
+        g.construct(kind, None, 0, False)
+        inst, desc, _ = g.insts[-1]
+        refinst[kind] = (inst, desc)
+        for (t, c) in st['regs'][kind]:
+            x = g.do(('T', kind, t, c, 0), lambda inst=inst, t=t, c=c: inst.model_factory.try_get_model(t, c, 0),
+                     {'kind': 'try_get', 'inst': desc})
+            ref[(kind, t, c)] = x
+    g.ref = ref
+    getters = {kind: [(w,) + g.wrapper_info[(kind, w)] for (k, w) in st['wrappers'] if k == kind]
+               for kind in range(len(st['real']))}
+    # ---- family (a): recogniser objects constructed with a target culture of every spelling class x request culture
+    # None / '' / explicit x every getter x fallback
+    for kind in range(len(st['real'])):
+        for target in target_spellings(st['supported']):
+            if g.construct(kind, target, 0, False) != 'ok':
+                continue
+            inst, desc, _ = g.insts[-1]
+            requests = [None, '']
+            if target:
+                requests.append(target)
+            requests.append('fr-CA')
+            for (w, t, cjk) in getters[kind]:
+                for c in requests:
+                    for fb in (True, False):
+                        g.do(('W', desc, t, cjk, c, fb), lambda inst=inst, w=w, c=c, fb=fb: getattr(inst, w)(c, fb),
+                             {'kind': 'wrapper', 'wrapper': w, 'inst': desc, 'type': t, 'culture': c, 'fb': fb,
+                              'cjk': cjk, 'family': 'a'})
+    # ---- family (b): every getter x every supported code x every upper/lower pattern of the code x fallback
+    for kind in range(len(st['real'])):
+        inst, desc = refinst[kind]
+        for (w, t, cjk) in getters[kind]:
+            for code in st['supported']:
+                for c in case_patterns(code):
+                    for fb in (True, False):
+                        g.do(('W', desc, t, cjk, c, fb), lambda inst=inst, w=w, c=c, fb=fb: getattr(inst, w)(c, fb),
+                             {'kind': 'wrapper', 'wrapper': w, 'inst': desc, 'type': t, 'culture': c, 'fb': fb,
+                              'cjk': cjk, 'family': 'b', 'code': code})
     # every (kind, own type, supported culture) once through the wrapper, fallback off and on: the full routing table
     for kind in range(len(st['real'])):
         C = st['tagged'][kind]
@@ -486,18 +584,65 @@ def pipeline(ctx, st, repaired):
             got = ('m',) + x._verif_tag
         else:
             got = ('?', repr(x))
-        if got != want:
+        refobj = g.ref.get(want[1:4]) if want[0] == 'm' else None
+        same_object = want[0] != 'm' or options != 0 or refobj is None or x is refobj
+        if got != want or not same_object:
             fi = {'op_index': j, 'operation': repr(op), 'recognizer': factory.KIND_NAMES[kind], 'target_culture': target,
-                  'options': options, 'model_type': t, 'culture': meta['culture'], 'fallback': repr(meta['fb']),
-                  'observed': got, 'property_demands': want}
+                  'options': options, 'getter': meta.get('wrapper') or 'get_model', 'model_type': t,
+                  'request_culture': meta['culture'], 'fallback': repr(meta['fb']),
+                  'observed': got, 'property_demands': want,
+                  'call': '%sRecognizer(%r).%s(%s%r, %r)' % (
+                      factory.KIND_NAMES[kind], target, meta.get('wrapper') or 'get_model',
+                      '' if meta.get('wrapper') else repr(t) + ', ', meta['culture'], meta['fb'])}
             cm = factory.current_map(s, st['supported'])
-            if got[0] == 'm' and got[3] == cm and factory.spec_culture(s, st['supported']) is None:
+            if got == want:
+                ctx.report('property', 'equal-key-different-objects',
+                           '%s returned a %r model that is not the cached object of that key' % (fi['call'], want[1:]),
+                           failing_input=fi, property_fails=True)
+            elif got[0] == 'm' and got[3] == cm and factory.spec_culture(s, st['supported']) is None:
                 prefix_findings.append(fi)
             else:
-                ctx.report('property', 'wrong-model-served',
-                           'request %r by %s(target=%r, options=%d): got %r, the property demands %r' % (
-                               op, factory.KIND_NAMES[kind], target, options, got, want),
+                ctx.report('property', narrow_signature(meta, st['supported']),
+                           '%s: got %r, the property demands %r' % (fi['call'], got, want),
                            failing_input=fi, property_fails=True)
+    # ---- the same supported code in any letter case is routed identically (family b; independent of the oracle above)
+    groups = {}
+    for op, x, meta in zip(ops, g.raw, g.meta):
+        if meta.get('family') == 'b':
+            groups.setdefault((meta['inst'], meta['wrapper'], meta['code'], meta['fb']), []).append((meta['culture'], x))
+    ncase = 0
+    for (desc, w, code, fb), lst in groups.items():
+        base = dict(lst).get(code)
+        for c, x in lst:
+            ncase += 1
+            same = (x is base) or (isinstance(x, Exception) and isinstance(base, Exception) and type(x) is type(base))
+            if not same:
+                ctx.report('property', 'letter-case-routing:%s' % w,
+                           '%sRecognizer(%r).%s(%r, %r) -> %s but with %r -> %s' % (
+                               factory.KIND_NAMES[desc[0]], desc[1], w, c, fb, factory.show_out(x), code,
+                               factory.show_out(base)),
+                           failing_input={'recognizer': factory.KIND_NAMES[desc[0]], 'target_culture': desc[1],
+                                          'getter': w, 'request_culture': c, 'fallback': fb,
+                                          'observed': factory.show_out(x), 'canonical_spelling': code,
+                                          'observed_for_canonical_spelling': factory.show_out(base)},
+                           property_fails=True)
+    ctx.count('letter_case_consistency', ncase)
+    # ---- monitored, not judged: a request that leaves the culture to the target vs the same culture given explicitly
+    # (the property judges each request by the culture it resolves to; the sequence getters' zh-/ja- shortcut looks at
+    # the explicit argument only, so SequenceRecognizer('ja-jp').get_phone_number_model() differs from ...('ja-jp'))
+    pairs = {}
+    for op, x, meta in zip(ops, g.raw, g.meta):
+        if meta.get('family') == 'a' and meta['inst'][1] and meta['culture'] in (None, meta['inst'][1]):
+            pairs.setdefault((meta['inst'], meta['wrapper'], meta['fb']), {})[meta['culture'] is None] = x
+    differs = []
+    for (desc, w, fb), d in pairs.items():
+        if True in d and False in d:
+            a, b = d[True], d[False]
+            if not ((a is b) or (isinstance(a, Exception) and isinstance(b, Exception) and type(a) is type(b))):
+                differs.append('%sRecognizer(%r).%s(None, %r) -> %s ; (%r, %r) -> %s' % (
+                    factory.KIND_NAMES[desc[0]], desc[1], w, fb, factory.show_out(a)[:60], desc[1], fb,
+                    factory.show_out(b)[:60]))
+    ctx.extra['default_vs_explicit_target_culture_differs'] = {'count': len(differs), 'examples': differs[:6]}
     # ---- language behaviour of the returned objects (probe sentences)
     seen = set()
     nprobe = 0
